@@ -382,6 +382,10 @@ func (h *histogram) RecordValue(value float64) {
 	idx := sort.Search(len(h.buckets), func(i int) bool {
 		return h.buckets[i].valueUpperBound >= value
 	})
+	if idx >= len(h.samples) {
+		// n.b. No bound compares >= +Inf or NaN; count those in the last bucket.
+		idx = len(h.samples) - 1
+	}
 	h.samples[idx].counter.Inc(1)
 }
 
